@@ -1022,8 +1022,18 @@ impl SignedDuration {
         self,
         rhs: SignedDuration,
     ) -> Option<SignedDuration> {
-        let Some(rhs) = rhs.checked_neg() else { return None };
-        self.checked_add(rhs)
+        let Some(neg) = rhs.checked_neg() else {
+            // `rhs` has `i64::MIN` seconds and thus cannot be negated, but
+            // `self - rhs` may still be representable (namely, when `self`
+            // is negative). Shifting both operands by one second makes the
+            // negation possible: `(self + 1s) - (rhs + 1s)`.
+            let one = SignedDuration::new_unchecked(1, 0);
+            let Some(lhs) = self.checked_add(one) else { return None };
+            let Some(rhs) = rhs.checked_add(one) else { return None };
+            let Some(neg) = rhs.checked_neg() else { return None };
+            return lhs.checked_add(neg);
+        };
+        self.checked_add(neg)
     }
 
     /// Add two signed durations together. If overflow occurs, then arithmetic
